@@ -256,6 +256,7 @@ pub fn def(tier: Tier) -> CheckDef {
             "hole (unifier) arms are outside this property's domain",
         ],
         idle_limit_s: 600,
+        needs_cli: false,
         parts: vec![
             Part {
                 name: "enum-small",
